@@ -654,8 +654,8 @@ class Analysis:
                         out |= self._op_ret(body, rv["ops"][0], cur[1:], reach, depth, seen, bi)
                     else:
                         out.add(("other", "ok-shape"))
-                elif kind.get("t") == "tuple":
-                    if cur and cur[0][0] == "f":
+                elif kind.get("t") == "tuple" or (kind.get("t") == "adt" and not str(kind.get("adt", "")).startswith(("std::", "core::")) and rv["ops"]):
+                    if cur and cur[0][0] == "f" and cur[0][1] < len(rv["ops"]):
                         out |= self._op_ret(body, rv["ops"][cur[0][1]], cur[1:], reach, depth, seen, bi)
                     else:
                         out.add(("other", "tuple-shape"))
@@ -777,7 +777,10 @@ def payload_matches(body, A, op, shape, bi):
             return True
         sl, sp = strip_place(op["place"])
         for d in defs.of(sl):
-            if d[0] == "stmt" and d[4]["k"] == "agg" and d[4]["kind"].get("t") == "tuple" and not d[3]["p"]:
+            is_record = d[0] == "stmt" and d[4]["k"] == "agg" and d[4]["kind"].get("t") == "adt" and not d[3]["p"] and d[4]["ops"] \
+                and not str(d[4]["kind"].get("adt", "")).startswith(("std::", "core::"))
+            if d[0] == "stmt" and d[4]["k"] == "agg" and (d[4]["kind"].get("t") == "tuple" or is_record) and not d[3]["p"]:
+                # `(converged, iterations)` or a small private record `StageOutcome { converged, iterations }`: first component
                 first = d[4]["ops"][0]
                 if shape == "ok_true_tuple":
                     if first["k"] == "const":
